@@ -8,6 +8,7 @@ import (
 	"encoding/hex"
 	"errors"
 	"fmt"
+	"os"
 	"sort"
 	"strings"
 
@@ -608,7 +609,7 @@ func (w *World) CheckPendingGlobal(inst *Instance, pend map[wire.Hash]*wire.MsgT
 	// re-import wallets "a coin of the wallet" has no fixed meaning over time -
 	// the parent may have gone with the removed wallet, not with the conflict.)
 	for h, tx := range pend {
-		if w.WalletsComeAndGo {
+		if w.WalletsComeAndGo && os.Getenv("VERIF_STRICT_ORPHANS") == "" {
 			break
 		}
 		for _, in := range tx.TxIn {
